@@ -274,6 +274,8 @@ pub struct Monitor {
     pub ether_touched: BTreeSet<Address>,
     /// a completed SELFDESTRUCT credited a beneficiary whose balance wrapped past 2^256
     pub sd_credit_wrapped: bool,
+    /// depth leak already attributed to inner frames of this transaction
+    depth_leak: i64,
     /// every address targeted by a call frame in this transaction
     pub addresses_called: BTreeSet<Address>,
 }
@@ -311,6 +313,7 @@ impl Monitor {
         self.short_circuits = short_circuits;
         self.top_delegate_checked = false;
         self.top_gas = None;
+        self.depth_leak = 0;
         self.burned_total = alloy_primitives::U512::ZERO;
         self.ether_touched.clear();
         self.addresses_called.clear();
@@ -374,7 +377,8 @@ impl Monitor {
             self.pending = None;
         }
         let js = &context.journaled_state;
-        let depth = js.depth();
+        // (net of a leak already attributed to an earlier frame of this transaction)
+        let depth = (js.depth() as i64 - self.depth_leak).max(0) as u64;
         let parent_static = self.frames.last().map(|f| f.is_static && f.started).unwrap_or(false);
         let (is_static, kind_tag) = match &inputs {
             FrameInputs::Call(c) => (c.is_static, 1u64),
@@ -513,7 +517,11 @@ impl Monitor {
         }
         let js = &context.journaled_state;
         // C07: depth restored
-        if js.depth() != rec.depth_at_begin {
+        // (a leak found in an inner frame is subtracted, so that only the frame that leaked
+        // is reported and not every frame around it)
+        let depth_now = js.depth() as i64 - self.depth_leak;
+        if depth_now != rec.depth_at_begin as i64 {
+            self.depth_leak += depth_now - rec.depth_at_begin as i64;
             let how = if rec.short_circuited { "short-circuit".to_string() } else { format!("{result:?}") };
             self.viol("C07", "C07.depth-balance", &[("result", how)], format!("journal depth {} at frame end, {} at frame begin (result {result:?}, started={})", js.depth(), rec.depth_at_begin, rec.started));
         }
